@@ -158,6 +158,12 @@ func runCli(in cliIn) (out cliOut) {
 					args := arguments.CliArguments{ConfigPath: "./gleece.config.json", NoBanner: true}
 					var e error
 					switch in.Kind {
+					case "dump-graph":
+						// no Go-level twin of this command: the exit status stands for itself
+						e = nil
+						if out.Exit != 0 {
+							e = fmt.Errorf("exit %d", out.Exit)
+						}
 					case "spec":
 						e = cmd.GenerateSpec(args)
 					case "routes":
@@ -175,7 +181,7 @@ func runCli(in cliIn) (out cliOut) {
 
 func genCli(seed uint64, n int, tier string, emit func(string, []string, any)) {
 	r := rng.New(seed)
-	kinds := []string{"bare", "spec", "routes", "spec-and-routes"}
+	kinds := []string{"bare", "spec", "routes", "spec-and-routes", "dump-graph"}
 	for i := 0; i < n; i++ {
 		cr := r.Fork()
 		np := 0
@@ -195,6 +201,13 @@ func genCli(seed uint64, n int, tier string, emit func(string, []string, any)) {
 		switch kind {
 		case "bare":
 			in.Cmd = []string{"--no-banner"}
+		case "dump-graph":
+			// the graph of the project as text (DOT by default, `plain` otherwise): no artifact of the generators, but a run
+			// like any other - it ends with exit 0 or with a reported error, never with a panic
+			in.Cmd = []string{"dump", "graph", "--no-banner", "-c", "./gleece.config.json", "-o", "./dist/graph.txt"}
+			if cr.Bool() {
+				in.Cmd = append(in.Cmd, "-f", "plain")
+			}
 		default:
 			in.Cmd = []string{"generate", kind, "--no-banner", "-c", "./gleece.config.json"}
 		}
